@@ -45,7 +45,12 @@ type budgetReader struct {
 	calls  int
 	budget int
 	trace  *[]seg
+	// calllog, when set, records every Read call (offset, buffer size, bytes returned),
+	// including the ones that return EOF (extrec family: locating the extension stream).
+	calllog *[]rdCall
 }
+
+type rdCall struct{ off, buf, n int }
 
 var errReadBudget = errors.New("read budget exceeded")
 
@@ -62,9 +67,15 @@ func (r *budgetReader) Read(p []byte) (int, error) {
 		panic(errReadBudget)
 	}
 	if r.off >= len(r.b) {
+		if r.calllog != nil {
+			*r.calllog = append(*r.calllog, rdCall{r.off, len(p), 0})
+		}
 		return 0, io.EOF
 	}
 	n := copy(p, r.b[r.off:])
+	if r.calllog != nil {
+		*r.calllog = append(*r.calllog, rdCall{r.off, len(p), n})
+	}
 	if r.trace != nil && n > 0 {
 		*r.trace = append(*r.trace, seg{r.off, r.off + n})
 	}
